@@ -8,7 +8,9 @@ use crate::{
     CompilationError, VecErr,
 };
 
-use super::{new_err, Callable, Compile, FunctionArguments, TypeLayout};
+use super::{
+    new_err, Callable, Compile, Dependencies, Dependency, FunctionArguments, TypeLayout,
+};
 
 #[derive(Debug)]
 pub(crate) enum DotLookupOption {
@@ -30,6 +32,20 @@ pub(crate) struct DotLookup<'a> {
 #[derive(Debug)]
 pub(crate) struct DotChain {
     links: Vec<DotLookupOption>,
+}
+
+impl Dependencies for DotChain {
+    fn dependencies(&self) -> Vec<Dependency> {
+        let mut result = vec![];
+
+        for link in &self.links {
+            if let DotLookupOption::FunctionCall { arguments, .. } = link {
+                result.append(&mut arguments.net_dependencies());
+            }
+        }
+
+        result
+    }
 }
 
 impl Compile for DotLookupOption {
